@@ -29,6 +29,7 @@ import (
 const (
 	liveWait  = 10 * time.Second      // "must happen" deadline
 	shortWait = 25 * time.Millisecond // look at something that must NOT happen
+	earlyWait = 10 * time.Millisecond // did a call return while the scheduler is held? (must not)
 	maxWakes  = 64                    // wake-ups within one settle: the scheduler is spinning
 )
 
@@ -91,6 +92,15 @@ type token struct {
 	id   int64
 }
 
+// an item observed while the scheduler was held in the middle of an event: it goes before
+// (or after) the item of the event whose first log record has index recIdx
+type pendingItem struct {
+	recIdx        int
+	after         bool
+	kind, ev, out string
+	tm            *int64
+}
+
 type runner struct {
 	c   *cron.Cron
 	clk *vclock
@@ -114,6 +124,9 @@ type runner struct {
 	jobPos       int
 	retOut       int // JobRet items emitted
 	stopObs      []bool
+	panics       []string
+	pending      []pendingItem
+	earlyRets    []string
 	released     int // blocked jobs released by "ret"
 	nStopRunning int // Stop calls made while running
 
@@ -163,14 +176,36 @@ func (r *runner) call(what string, fn func()) bool {
 		return false
 	}
 	done := make(chan struct{})
-	go func() { fn(); close(done) }()
+	var pan any
+	go func() {
+		defer close(done)
+		defer func() { pan = recover() }()
+		fn()
+	}()
 	select {
 	case <-done:
+		if pan != nil {
+			r.hung = fmt.Sprintf("%s panicked: %v", what, pan)
+			return false
+		}
 		return true
 	case <-time.After(liveWait):
 		r.hung = what + " did not return"
 		return false
 	}
+}
+
+// guarded runs an API call on the current goroutine, turning a panic inside cron into a verdict
+// of the script instead of a crash of the harness.
+func (r *runner) guarded(what string, fn func()) {
+	defer func() {
+		if p := recover(); p != nil {
+			r.jmu.Lock()
+			r.panics = append(r.panics, fmt.Sprintf("%s panicked: %v", what, p))
+			r.jmu.Unlock()
+		}
+	}()
+	fn()
 }
 
 func (r *runner) outstanding() int {
@@ -287,14 +322,27 @@ func snapList(es []cron.Entry) string {
 // the first wake-up of the batch (there is exactly one unless the scheduler misbehaves).
 func (r *runner) collect() {
 	r.waitJobs()
+	base := r.logPos
 	recs := r.log.slice(r.logPos)
 	r.logPos += len(recs)
 	jobs := r.newJobs()
 	jobsPlaced := len(jobs) == 0
 	stopIdx := 0
+	flush := func(idx int, after bool) {
+		keep := r.pending[:0]
+		for _, p := range r.pending {
+			if p.recIdx == idx && p.after == after {
+				r.emit(p.kind, p.ev, p.out, nil, p.tm)
+			} else {
+				keep = append(keep, p)
+			}
+		}
+		r.pending = keep
+	}
 	for i := 0; i < len(recs); {
 		x := recs[i]
 		j := i + 1
+		flush(base+i, false)
 		var group []rec
 		takeGroup := func(kind string) {
 			for j < len(recs) && recs[j].kind == kind {
@@ -368,8 +416,13 @@ func (r *runner) collect() {
 		default:
 			r.notes = append(r.notes, "log: "+x.kind+" "+x.detail)
 		}
+		flush(base+i, true)
 		i = j
 	}
+	for _, p := range r.pending {
+		r.emit(p.kind, p.ev, p.out, nil, p.tm)
+	}
+	r.pending = nil
 	r.stopObs = nil
 	if !jobsPlaced {
 		// job starts without a wake-up in this batch: attach them to a context poll so that the
@@ -511,6 +564,7 @@ func (r *runner) doAPI(o op) {
 		}
 		if !wasRunning {
 			r.emit("RemoveIdle", "RemoveIdle "+hx.CoqZ(o.ID), "ONone", nil, nil)
+			r.emit("RemoveRet", "RemoveRet "+hx.CoqZ(o.ID), "ONone", nil, nil)
 			return
 		}
 	case "stop":
@@ -528,11 +582,76 @@ func (r *runner) doAPI(o op) {
 		r.ctxDone[len(r.ctxDone)-1] = d
 		if !wasRunning {
 			r.emit("StopIdle", "StopIdle", "OCtx "+hx.CoqBool(d), nil, nil)
+			r.emit("StopRet", "StopRet", "ONone", nil, nil)
 			return
 		}
 		r.stopObs = append(r.stopObs, d)
 	}
-	r.afterEvent()
+	snap, ok := r.settle()
+	r.collect()
+	r.retItem(o, nil)
+	if ok && r.running {
+		r.snapshotItem(snap)
+	}
+}
+
+// retItem: the call has returned to its caller (by now).
+func (r *runner) retItem(a op, snap []cron.Entry) {
+	switch a.Op {
+	case "remove":
+		r.emit("RemoveRet", "RemoveRet "+hx.CoqZ(a.ID), "ONone", nil, r.lastTm)
+	case "stop":
+		r.emit("StopRet", "StopRet", "ONone", nil, r.lastTm)
+	case "entries":
+		if r.running {
+			r.snapshotItem(snap)
+		}
+	}
+}
+
+// earlyReturn: the call returned although the scheduler goroutine is held in the middle of an
+// event (it must not: every running-state call is a rendezvous with the scheduler's select).
+// What the caller now relies on is recorded at THIS point of the scheduler's linearisation:
+// before the item of the event in progress when none of its effects has happened yet.
+func (r *runner) earlyReturn(o op, a op, snap []cron.Entry) {
+	r.earlyRets = append(r.earlyRets, o.Mode+"/"+a.Op)
+	var kind, ev, out string
+	switch a.Op {
+	case "remove":
+		kind, ev, out = "RemoveRet", "RemoveRet "+hx.CoqZ(a.ID), "ONone"
+	case "stop":
+		kind, ev, out = "StopRet", "StopRet", "ONone"
+	case "entries":
+		kind, ev, out = "Snapshot", "Snapshot", "OSnap "+snapList(snap)
+	default:
+		return
+	}
+	if o.Mode == "gated" {
+		// held on the way back into the select: every earlier event is complete and collected
+		r.emit(kind, ev, out, nil, r.lastTm)
+		return
+	}
+	_, idx := r.log.Parked()
+	recs := r.log.slice(0)
+	first := idx // first record of the event in progress
+	after := false
+	if o.Mode == "parkrun" {
+		for first > 0 && recs[first].kind != "wake" {
+			first--
+		}
+		// some jobs of this wake-up have been started already: the return is "before the
+		// wake-up's starts" only for an entry that has not been started yet
+		after = true
+		if a.Op == "remove" {
+			after = false
+			for k := first; k <= idx && k < len(recs); k++ {
+				if recs[k].kind == "run" && recs[k].entry == a.ID {
+					after = true
+				}
+			}
+		}
+	}
+	r.pending = append(r.pending, pendingItem{recIdx: first, after: after, kind: kind, ev: ev, out: out, tm: r.lastTm})
 }
 
 // stopSeen: as many "stop" records as Stop calls made on a running Cron.
@@ -626,14 +745,19 @@ func (r *runner) do(o op) {
 // racy: the tick and the call are released together; Go's select picks the order.  The log says
 // which order the scheduler took; the items are in THAT order.
 func (r *runner) race(o op) {
-	if !r.running || o.API == nil {
+	if o.API == nil || (o.Mode != "parkstart" && !r.running) || (o.Mode == "parkstart" && r.running) {
 		return
 	}
 	a := *o.API
-	if o.Mode == "gated" {
+	held := false // the scheduler goroutine is held (NewTimer gate / inside a logger call)
+	switch o.Mode {
+	case "gated":
 		// Hold the scheduler inside NewTimer on its way back to the select after the wake-up at
 		// o.To, let the clock reach the new timer's instant (the tick is delivered) and issue the
 		// call; then let it go: both select cases are ready, Go picks.
+		if a.Op == "entries" {
+			return
+		}
 		r.clk.ArmGate()
 		if r.clk.Advance(o.To, false) == 0 {
 			r.clk.ReleaseGate()
@@ -650,8 +774,50 @@ func (r *runner) race(o op) {
 		r.collect() // the wake-up at o.To, with its job starts
 		_, dl := r.clk.GateParked()
 		o.To = dl + o.Extra
+		held = true
+	case "parkwake", "parkrun":
+		// Hold the scheduler inside its synchronous Logger call in the MIDDLE of the wake-up at
+		// o.To (parkwake: tick consumed, nothing started yet; parkrun: first job started) and
+		// issue the call from another goroutine.
+		kind := "wake"
+		if o.Mode == "parkrun" {
+			kind = "run"
+		}
+		r.log.ArmPark(kind)
+		if r.clk.Advance(o.To, false) == 0 {
+			r.log.ReleasePark()
+			r.emit("Tick", "Tick "+hx.CoqZ(r.clk.Peek()), "ONone", r.newJobs(), r.lastTm)
+			return
+		}
+		if !waitFor(func() bool { p, _ := r.log.Parked(); return p }, liveWait) {
+			r.log.ReleasePark()
+			r.afterEvent()
+			return
+		}
+		held = true
+	case "parkstart":
+		// Hold the freshly started scheduler goroutine inside Info("start"), before it computes
+		// the Next values, and issue the call.
+		r.log.ArmPark("start")
+		if !r.call("Start", func() { r.c.Start() }) {
+			return
+		}
+		if !waitFor(func() bool { p, _ := r.log.Parked(); return p }, liveWait) {
+			r.log.ReleasePark()
+			r.hung = "Start: scheduler goroutine did not start"
+			return
+		}
+		r.running = true
+		held = true
+	default:
+		if a.Op == "entries" {
+			return
+		}
 	}
-	due := r.clk.Advance(o.To, o.Mode != "gated")
+	due := 1
+	if o.Mode == "gated" || !held {
+		due = r.clk.Advance(o.To, o.Mode != "gated")
+	}
 	w0, _ := r.log.counts()
 	p0 := r.log.len()
 	var tk *token
@@ -661,6 +827,7 @@ func (r *runner) race(o op) {
 		idx = len(r.tokens) - 1
 	}
 	var cx context.Context
+	var apiSnap []cron.Entry
 	rawCall := func() {
 		switch a.Op {
 		case "sched":
@@ -669,18 +836,34 @@ func (r *runner) race(o op) {
 			r.c.Remove(cron.EntryID(a.ID))
 		case "stop":
 			cx = r.c.Stop()
+		case "entries":
+			apiSnap = r.c.Entries()
 		}
 	}
 	if a.Op == "stop" {
 		r.nStopRunning++
 	}
-	if o.Mode == "gated" {
+	early := false
+	if held {
 		done := make(chan struct{})
-		go func() { rawCall(); close(done) }()
-		// give the call a moment to reach its channel send (affects only how often each order
-		// is seen, never a verdict)
-		time.Sleep(150 * time.Microsecond)
-		r.clk.ReleaseGate()
+		go func() { defer close(done); r.guarded("race:"+a.Op, rawCall) }()
+		// While the scheduler is held the call cannot complete its rendezvous: watch (briefly -
+		// this is "must NOT happen") whether it returns all the same.  In gated mode the wait
+		// also lets the call reach its channel send, so that both select cases are ready.
+		select {
+		case <-done:
+			early = true
+			if tk != nil {
+				r.byID[tk.id] = tk
+			}
+			r.earlyReturn(o, a, apiSnap)
+		case <-time.After(earlyWait):
+		}
+		if o.Mode == "gated" {
+			r.clk.ReleaseGate()
+		} else {
+			r.log.ReleasePark()
+		}
 		if !r.call("race:"+a.Op, func() { <-done }) {
 			return
 		}
@@ -689,19 +872,23 @@ func (r *runner) race(o op) {
 		var wg sync.WaitGroup
 		wg.Add(2)
 		go func() { defer wg.Done(); <-gate; r.clk.DeliverHeld() }()
-		ok := true
-		go func() { defer wg.Done(); <-gate; rawCall() }()
+		go func() { defer wg.Done(); <-gate; r.guarded("race:"+a.Op, rawCall) }()
 		close(gate)
 		if !r.call("race:"+a.Op, wg.Wait) {
-			ok = false
-		}
-		if !ok {
 			return
 		}
 	} else {
 		if !r.call("race:"+a.Op, rawCall) {
 			return
 		}
+	}
+	r.jmu.Lock()
+	if len(r.panics) > 0 && r.hung == "" {
+		r.hung = r.panics[0]
+	}
+	r.jmu.Unlock()
+	if r.hung != "" {
+		return
 	}
 	if tk != nil {
 		r.byID[tk.id] = tk
@@ -741,8 +928,17 @@ func (r *runner) race(o op) {
 			}
 		}
 	}
+	switch o.Mode {
+	case "parkwake", "parkrun":
+		order = "call-during-wake"
+	case "parkstart":
+		order = "call-during-start"
+	}
 	r.raceObs = append(r.raceObs, fmt.Sprintf("%s/%s/due=%d/%s", o.Mode, a.Op, min(due, 1), order))
 	r.collect()
+	if !early {
+		r.retItem(a, apiSnap)
+	}
 	if ok && r.running {
 		r.snapshotItem(snap)
 	}
@@ -750,6 +946,8 @@ func (r *runner) race(o op) {
 
 // finish: final look for stray job starts, then release everything.
 func (r *runner) finish() {
+	r.clk.ReleaseGate()
+	r.log.ReleasePark()
 	if r.hung == "" && !r.spinning {
 		time.Sleep(2 * time.Millisecond)
 		r.emit("CtxPoll", "CtxPoll", "OCtxs "+r.ctxList(), r.newJobs(), r.lastTm)
